@@ -159,14 +159,14 @@ Proof.
   - apply ret_some in E. inversion E; subst. split; assumption.
 Qed.
 
-(** valid final state of an in-flight annihilation (both variants) *)
+(** valid final state of an in-flight annihilation (tree's code; candidate repair under the branch hypothesis) *)
 Theorem ep_outputs_valid fixed (p : ep_params R) a s r a' s' :
-  ep_ok p -> 0 < ep_energy p -> canon s ->
+  ep_ok p -> 0 < ep_energy p -> canon s -> (fixed = false \/ rot_branch_ok (ep_dir p)) ->
   ep_sample fixed p a s = Some ((r, a'), s') -> i_action r <> Failed ->
   exists g0 g1, i_secs r = [g0; g1] /\ s_pid g0 = PGamma /\ s_pid g1 = PGamma /\
     0 < s_energy g0 /\ 0 < s_energy g1 /\ unitv (s_dir g0) /\ unitv (s_dir g1).
 Proof.
-  intros (Hm & _ & Hd) HE Hc E Hf.
+  intros (Hm & _ & Hd) HE Hc Hfix E Hf.
   apply ep_sample_inv in E as [(_ & Hr & _)|[(_ & Hz & _)|(_ & _ & epsil & s1 & E1 & E2)]].
   { subst r. contradiction Hf. reflexivity. }
   { lra. }
@@ -187,7 +187,8 @@ Proof.
   split; [reflexivity|]. split; [reflexivity|].
   split; [nra|]. split; [nra|]. split; [exact Hd0|].
   destruct fixed.
-  - apply make_unit_vector_unit.
+  - destruct Hfix as [Hx|Hb]; [discriminate|]. specialize (Hpol Hb).
+    apply make_unit_vector_unit.
     rewrite (ep_recoil_sq (ep_me p) (ep_energy p) Hm HE epsil) ; try assumption; try lra.
     + fold etot. assert (Hpos : 0 < etot - epsil * etot) by nra. apply Rmult_lt_0_compat; exact Hpos.
   - apply make_unit_vector_unit. apply momentum_diff_pos; try assumption.
@@ -198,16 +199,16 @@ Proof.
       rewrite sqrt_sqrt in Hsq by nra. unfold etot in Hsq. nra.
 Qed.
 
-(** repaired code: momentum is conserved in flight *)
+(** CANDIDATE REPAIR (fixed = true), NOT IN THE TREE: momentum is conserved in flight *)
 Theorem ep_momentum_conserved (p : ep_params R) a s r a' s' g0 g1 :
-  ep_ok p -> 0 < ep_energy p -> canon s ->
+  ep_ok p -> 0 < ep_energy p -> canon s -> rot_branch_ok (ep_dir p) ->
   ep_sample true p a s = Some ((r, a'), s') -> i_secs r = [g0; g1] ->
   let pin := sqrt (ep_energy p * (ep_energy p + 2 * ep_me p)) in
   vx (ep_dir p) * pin = vx (s_dir g0) * s_energy g0 + vx (s_dir g1) * s_energy g1 /\
   vy (ep_dir p) * pin = vy (s_dir g0) * s_energy g0 + vy (s_dir g1) * s_energy g1 /\
   vz (ep_dir p) * pin = vz (s_dir g0) * s_energy g0 + vz (s_dir g1) * s_energy g1.
 Proof.
-  intros (Hm & _ & Hd) HE Hc E Hsecs.
+  intros (Hm & _ & Hd) HE Hc Hb E Hsecs.
   apply ep_sample_inv in E as [(_ & Hr & _)|[(_ & Hz & _)|(_ & _ & epsil & s1 & E1 & E2)]].
   { subst r. discriminate. }
   { lra. }
@@ -221,7 +222,7 @@ Proof.
   pose proof (ep_cost_range (ep_me p) (ep_energy p) Hm HE epsil) as Hcos. cbv zeta in Hcos.
   change (ep_energy p / ep_me p) with (ep_tau p) in Hcos. specialize (Hcos Hr).
   apply ep_assemble_inv in E2 as (d0 & Ed & Hres). cbv zeta in Ed.
-  destruct (exiting_direction_spec _ _ _ _ _ Ed Hcos Hd) as (u & _ & Hd0 & Hpol).
+  destruct (exiting_direction_spec _ _ _ _ _ Ed Hcos Hd) as (u & _ & Hd0 & Hpol). specialize (Hpol Hb).
   set (etot := ep_energy p + 2 * ep_me p) in *. assert (Het : 0 < etot) by (unfold etot; lra).
   subst r. cbn [i_secs] in Hsecs. inversion Hsecs; subst g0 g1. cbn [s_energy s_dir]. cbv zeta.
   assert (Hsq := ep_recoil_sq (ep_me p) (ep_energy p) Hm HE epsil (ep_dir p) d0 (proj1 He) Hd Hd0 Hpol).
@@ -270,7 +271,7 @@ Proof.
     - apply div_gt_c; [lra|]. lra.
     - apply div_le_c; [lra|]. nra. }
   assert (Hcos : -1 <= cost <= 1) by lra.
-  destruct (exiting_direction_spec _ _ _ _ _ Ed Hcos Hd) as (u & _ & Hd0 & Hpol).
+  destruct (exiting_direction_spec _ _ _ _ _ Ed Hcos Hd) as (u & _ & Hd0 & Hpol). specialize (Hpol ltac:(right; cbn; lra)).
   rewrite dot_R in Hpol. cbn [ep_dir p vx vy vz] in Hpol.
   assert (Hz0 : vz d0 = cost) by lra.
   subst r. eexists; eexists. split; [reflexivity|]. cbn [s_energy s_dir ep_dir ep_energy ep_me p vz].
